@@ -557,6 +557,9 @@ def _returns_field(cb, fname):
 # sensitivity pack (thorough tier)
 _IU = 'src/index/updater/inscription_updater.rs'
 MUTANTS = [
+  {'name': 'seeded-C03-a', 'patch': 'C03-a/patch.diff', 'expect': ('R3.2', 'index_inscriptions', 'the output loop walks exactly tx.output')},
+  {'name': 'seeded-C03-b', 'patch': 'C03-b/patch.diff', 'expect': ('R3.6', 'index_inscriptions', 'unrecognized_even_field')},
+
   {'name': 'carried inscriptions float at their old offset only (earlier inputs ignored)', 'file': _IU, 'old': '        let offset = total_input_value + old_satpoint_offset;', 'new': '        let offset = old_satpoint_offset;', 'expect': ('R3.1', 'index_inscriptions', 'carried inscription: offset')},
   {'name': 'new inscriptions default to the end of their input', 'file': _IU, 'old': '      let offset = total_input_value;\n\n      let input_value = input_utxo_entries[input_index].total_value();\n      total_input_value += input_value;', 'new': '      let input_value = input_utxo_entries[input_index].total_value();\n      total_input_value += input_value;\n\n      let offset = total_input_value;', 'expect': ('R3.1', 'index_inscriptions', 'new inscription: default offset')},
   {'name': 'an inscription on the first sat of the next output is placed in this one', 'file': _IU, 'old': '        if flotsam.offset >= end {', 'new': '        if flotsam.offset > end {', 'expect': ('R3.2', 'index_inscriptions', 'placed offset')},
